@@ -249,8 +249,11 @@ def check(model, opts, feeds_list):
         comps = []
         if a[0] == "ok":
             comps.append(("EXEC " + c[1]) if c[0] != "ok" else (compare.same_outputs(a[1], c[1], scale, k) or ""))
-        if b[0] == "ok":
+        if b[0] == "ok" and newsrc.ev is not None or (b[0] == "ok" and newsrc.ev_err is not None):  # (not when the reference runtime is switched off for the result)
             comps.append(("EXEC " + d[1]) if d[0] != "ok" else (compare.same_outputs(b[1], d[1], scale, k) or ""))
+        if not comps:
+            outcomes.append("skip_no_common_runtime")
+            continue
         if all(x == "" for x in comps):
             outcomes.append("ok")
         elif all(x != "" for x in comps):
